@@ -32,12 +32,12 @@ LEVEL_TEXT = (
     "Exploration against a reference interpreter: random operator programs (dyadic operands, so matrix arithmetic is exact) are executed by the real interpreter and by an exact-rational model of ISO 32000-1 9.3-9.4; every glyph's matrix, advance, bbox, size, font and fill colour is compared, and a recorder around Do compares the caller's full state before and after each form. Right level: the property quantifies over all programs; a reference model plus random programs with malformed operators injected is the strongest oracle that does not need a proof of the interpreter."
 )
 RULE = (
-    "random content programs (20-70 operators quick) over q Q cm BT ET Tc Tw Tz TL Tf Ts Td TD Tm T* Tj TJ ' \" g rg k G RG K "
+    "random content programs (20-70 operators quick) over q Q cm BT ET Tc Tw Tz TL Tf Ts Td TD Tm T* Tj TJ ' \" g rg k G RG K, cs/CS with the device colour spaces followed by sc/scn/SC/SCN (sometimes with an empty q Q between), "
     "and Do of form XObjects (own /Matrix, /Resources or the page's by omission, nested <=3) with dyadic operands; 2-3 simple "
     "fonts per page with random /Widths (incl. 0 and halves), sizes incl. negative and fractional; malformed occurrences "
     "(missing / ill-typed operands) of every operator, each followed by a well-formed instance; program emitted as one stream "
     "and as Contents arrays split at white space (white space kept on one side). distinct = distinct content bytes; "
-    "non-trivial = >=1 glyph shown and >=5 distinct operators. Not generated: q/Q inside text objects, Contents split "
+    "non-trivial = >=1 glyph shown and >=5 distinct operators. Not generated: q/Q with anything between them inside text objects, Contents split "
     "without white space (pure concatenation would fuse tokens), Tr, surplus operands."
 )
 ASSUMPTIONS = [
@@ -45,6 +45,7 @@ ASSUMPTIONS = [
     "LTChar.matrix is the text matrix (with the pen translation) times the CTM, LTChar.adv = w0/1000 x Tfs x Th in text space, as pdfminer documents them",
     "comparison tolerance 1e-9 relative (width/1000 is not dyadic); all other operands are dyadic rationals",
     "a colour the program never sets is not asserted (pdfminer reports None where the model has the initial black)",
+    "the fill colour space (LTChar.ncs.name) is asserted once a fill colour has been set; after cs the colour VALUE is not asserted until sc/scn sets it (pdfminer keeps the old value where 8.6.8 resets it to the initial colour of the new space)",
 ]
 SHARD_TIMEOUT = {"quick": 600, "thorough": 5400}
 REL = 1e-9
